@@ -518,8 +518,10 @@ func (s *Session) UnmarshalJSON(data []byte) error {
 	if da, ok = obj["da"]; !ok {
 		return errors.New("Missing session data")
 	}
-	if s.data, ok = da.(map[string]interface{}); !ok {
-		return fmt.Errorf("Invalid session data type %T", da)
+	if da != nil { // Reference sessions have no data: MarshalJSON writes "da":null for them.
+		if s.data, ok = da.(map[string]interface{}); !ok {
+			return fmt.Errorf("Invalid session data type %T", da)
+		}
 	}
 	return nil
 }
